@@ -50,6 +50,9 @@ def adversarial_specs():
     out.append(raw(3, {"H": [[2.0, 0.0, 0.0], [0.0, 2.0, 0.0], [0.0, 0.0, 0.0]], "g": [-2.0, 4.0, 0.0]},
                    [{"Q": [[0.0, 0.0, 0.0], [0.0, 0.0, 0.0], [0.0, 0.0, 2.0]], "a": [0.0, 0.0, 1.0], "b": 0.0, "lb": 2.0, "ub": 2.0}],
                    [N, N, N], [I, I, I], [0.0, 0.0, 0.0], "separable_constraint"))
+    # symmetric QP started on its (non-binding) equality row: c == 0 and y == 0 exactly along the whole flow
+    out.append(raw(2, {"H": [[2.0, 0.0], [0.0, 2.0]], "g": [0.0, 0.0]}, [{"a": [1.0, -1.0], "b": 0.0, "lb": 0.0, "ub": 0.0}], [N, N], [I, I], [1.0, 1.0],
+                   "nonbinding_equality_zero_multiplier"))
     # one variable, unconstrained quartic (flat minimum)
     out.append(raw(1, S.objective("quartic", 1), [], [N], [I], [2.0], "quartic_1d"))
     return out
